@@ -263,7 +263,7 @@ func init() {
 				if pts[i].y < pts[i-1].y {
 					c.res.fail(Failure{Class: fmt.Sprintf("C02:%s:%d:monotone", en.name, en.w), Desc: "result decreases as x increases",
 						Input: map[string]interface{}{"encoder": fmt.Sprintf("%s.To%dBit", en.name, en.w), "x1_bits": fmt.Sprintf("%#x", math.Float32bits(pts[i-1].x)), "x2_bits": fmt.Sprintf("%#x", math.Float32bits(pts[i].x))},
-						Got: fmt.Sprintf("%d then %d", pts[i-1].y, pts[i].y), Want: "non-decreasing"})
+						Got:   fmt.Sprintf("%d then %d", pts[i-1].y, pts[i].y), Want: "non-decreasing"})
 					break
 				}
 			}
